@@ -401,3 +401,43 @@ def run_deep_case(di, si, lang):
     except (STIXError, ValueError, TypeError):
         return False
     return preserved(b, json.loads(o.serialize(include_optional_defaults=True)))
+
+
+# ---- indicators in every pattern language of the vocabulary (the pattern text itself is opaque for the non-STIX languages)
+PATTERN_LANGS = [("stix", "[a:b = 1]"), ("snort", "alert tcp any any -> any any (msg:\"m\"; sid:1;)"), ("suricata", "alert http any any -> any any (sid:2;)"),
+                 ("yara", "rule r { condition: true }"), ("pcre", "^a+$"), ("sigma", "title: t")]
+NPL = len(PATTERN_LANGS)
+
+
+def indicator_pattern_languages(pi: int, has_ver: bool, wrap: bool) -> bool:
+    """
+    pre: 0 <= pi < NPL
+    post: _
+    """
+    pi, has_ver, wrap = pick(pi, NPL), pickb(has_ver), pickb(wrap)
+    with Native():
+        ok = run_pattern_lang_case(pi, has_ver, wrap)
+    V.reached()
+    return ok
+
+
+def run_pattern_lang_case(pi, has_ver, wrap):
+    """a 2.1 indicator is valid with any pattern_type of the vocabulary, with or without pattern_version; re-serialization adds nothing that
+    was not given except pattern_version for the STIX language, whose version the specification ties to the object's spec version"""
+    lang, text = PATTERN_LANGS[pi]
+    d = {"type": "indicator", "spec_version": "2.1", "id": "indicator--" + gen.UU, "created": "2020-01-01T00:00:00.000Z", "modified": "2020-01-01T00:00:00.000Z",
+         "pattern": text, "pattern_type": lang, "valid_from": "2020-01-01T00:00:00Z"}
+    if has_ver:
+        d["pattern_version"] = "2.1" if lang == "stix" else "1.0"
+    doc = {"type": "bundle", "id": "bundle--" + gen.UU, "objects": [d]} if wrap else d
+    try:
+        o = stix2.parse(doc, allow_custom=False)
+    except (STIXError, ValueError, TypeError):
+        return False
+    out = json.loads(o.serialize())
+    if wrap:
+        out = out["objects"][0]
+    if not preserved(d, out):
+        return False
+    extra = set(out) - set(d)
+    return extra <= ({"pattern_version"} if lang == "stix" else set()) and (lang != "stix" or out.get("pattern_version") == "2.1")
